@@ -258,6 +258,10 @@ func runC05Shortcuts(c *Ctx, ea *engineAnchors, eg *EventGraph) {
 	} else {
 		c.touch(fnKey(rpa))
 		s := eg.summ(0)
+		base := s.HelperInline
+		s.HelperInline = func(f *ssa.Function) bool {
+			return base(f) || (privateHelper(rpa, f) && !eg.MayEmit[f] && f.Signature.Results().Len() == 1 && isBoolType(f.Signature.Results().At(0).Type()))
+		}
 		paths, _ := s.Function(rpa)
 		var bad []string
 		nWalk := 0
